@@ -73,8 +73,9 @@ fn files_basic() -> Vec<FileSpec> {
 fn files_with_lossy() -> Vec<FileSpec> {
     let mut v = files_basic();
     let f = |name: &str, class, halves, delta, method| FileSpec { name: name.to_string(), class, len: LenSpec { halves, delta }, seed: 9, method, enc: Enc::None, locale: 0 };
-    v.push(f("snd\\adpcm_multi.wav", ContentClass::LowEntropy, 7, 10, M_ADPCM_MONO));
-    v.push(f("snd\\adpcm_stereo_z.wav", ContentClass::Period, 5, 0, M_ADPCM_STEREO | M_ZLIB));
+    // (20 and 17 sectors: enough checksum entries for the checksum sector to be stored compressed)
+    v.push(f("snd\\adpcm_multi.wav", ContentClass::LowEntropy, 39, 10, M_ADPCM_MONO));
+    v.push(f("snd\\adpcm_stereo_z.wav", ContentClass::Period, 33, 0, M_ADPCM_STEREO | M_ZLIB));
     v
 }
 
